@@ -51,8 +51,8 @@ theorem C17_idempotent (e : Ent) (i : Nat) :
 /-- **convergence is not disturbed**: the replicated value of a kind with companions obeys the component
 slice; its theorem is `C02_epochs` — fix steps are invisible to it by `C17_value_untouched` -/
 theorem C17_convergence {V : Type} [DecidableEq V] (x : Option V) (s : Comp.State V) (es : List (Comp.Epoch V))
-    (hn : (s.clients.map (·.id)).Nodup) (hc : Comp.Clean x s) (hok : Comp.EpochsOk s es) :
-    Comp.Clean (Comp.lastWrittenEpochs x es) (Comp.runEpochs s es) :=
+    (hn : (s.clients.map (·.id)).Nodup) (hc : Comp.Clean x s) (hok : Comp.EpochsOk ra s es) :
+    Comp.Clean (Comp.lastWrittenEpochs x es) (Comp.runEpochs ra s es) :=
   C02_epochs x s es hn hc hok
 
 /-- the repaired defect stays machine-checked: with the value re-insert a newer value that lands between
